@@ -11,9 +11,9 @@ import (
 
 func init() {
 	register(&propDef{
-		ID:    "C12",
-		Title: "The response cache is invisible",
-		Run:   runC12,
+		ID:          "C12",
+		Title:       "The response cache is invisible",
+		Run:         runC12,
 		Explanation: "Structural necessary conditions of cache transparency in the query entry point, decided on SSA: (key) the cache key depends on location id, query type, query class and the lower-cased name, and the same key is used for Get/Add/Remove; (copy) what is stored is a Copy() and what is taken out is only ever used through Copy(); (before-opt) no OPT record can be attached to the message before it is copied into the cache; (weighted) an insert happens only when the weighted flag (which depends on all three sampler reports) is false or WRSTimeout > 0; (purge/order) reload purges after the swap under the write lock; (generation) every insertion is tied to the pinned generation. Equality of cached and uncached responses over histories is not decided.",
 	})
 }
@@ -352,6 +352,7 @@ func runC12(c *Ctx) {
 	c.Rule(rule, "every lru.Add is tied to the pinned generation: (a/b) reloadMu is held at the insertion (continuously since the reader was acquired, or around a generation check), or (c) the cache inserted into was obtained together with the reader and a reload installs a fresh cache")
 	c12Generation(c, rule, serve, adds)
 	c.Floor(rule, 2)
+	cacheKeyInjective(c, "C12.key-injective")
 }
 
 func keysOf(m map[string]bool) []string {
@@ -392,7 +393,6 @@ func namedType(c *Ctx, pkgPath, typ string) types.Type {
 	undecided("type %s.%s not found among the imports", pkgPath, typ)
 	return nil
 }
-
 
 // cacheInsert is one place where the query path inserts into the cache: a
 // direct lru.Add, or a call of a module function wrapping it.
@@ -585,7 +585,6 @@ func c12Generation(c *Ctx, rule string, serve *ssa.Function, adds []*cacheInsert
 		}
 	}
 }
-
 
 // keyIngredients collects what a cache key is made of. frame maps the parameters of the helper being looked
 // into to the actual arguments at its call site.
